@@ -62,6 +62,8 @@ def run(ctx, rep):
     if facts.find(r"^aes_ctr::AesCtrZipKeyStream"):
         from rules.C16 import ctr_rules
         ctr_rules(facts, rep)          # reported as C09/C16-CTR: the keystream position advances by exactly what was consumed
+        from rules.C16 import mac_rules
+        mac_rules(facts, rep)          # reported as C09/C16-MAC: the read paths of the AES adapter (a zero-length request is not an error, end of data is sticky)
     from rules.C10 import drain_rules
     drain_rules(facts, rep)            # reported as C09/C10-DRAIN: the drop-time drain tolerates short reads (ends on Ok(0) only)
     rep.floor("C09-COUNT", 12, "6 impl Read + 3 impl Write adapters, several obligations each")
